@@ -566,7 +566,10 @@ impl Store {
             for id in filter.ids() {
                 // NOTE: we cannot stop at `limit` here: the ids are not listed in time
                 // order, and the limit keeps the newest events (applied below)
-                if let Some(event) = self.get_event_by_id(id)? {
+                // (looked up in the query's own read transaction: get_event_by_id would open
+                // a new one per id, and the answer would mix several committed states)
+                if let Some(offset) = self.indexes.get_offset_by_id(&txn, id)? {
+                    let event = unsafe { self.events.get_event_by_offset(offset as usize)? };
                     // and check each against the rest of the filter
                     if filter.event_matches(event)? && screen(event) {
                         let _ = output.insert(event);
